@@ -27,6 +27,10 @@ use std::os::fd::RawFd;
 use std::sync::atomic::{AtomicU64, Ordering};
 use std::time::{Duration, Instant};
 
+/// Strict mode (two-node engines: every connection has both ends in this process): an ESTABLISHED
+/// socket whose peer socket is no longer among our descriptors is waiting for a FIN or RST that is
+/// still on its way - not quiet.
+pub static STRICT: std::sync::atomic::AtomicBool = std::sync::atomic::AtomicBool::new(false);
 pub static TIMEOUTS: AtomicU64 = AtomicU64::new(0);
 pub static SETTLES: AtomicU64 = AtomicU64::new(0);
 pub static ROUNDS: AtomicU64 = AtomicU64::new(0);
@@ -176,7 +180,11 @@ pub fn snapshot() -> Snap {
         if s.inq != 0 || s.notsent != 0 || matches!(s.state, 2 | 3 | 4 | 9 | 11) {
             quiet = false;
         }
-        if let Some(p) = socks.iter().find(|p| p.local == s.peer && p.peer == s.local) {
+        let pair = socks.iter().find(|p| p.local == s.peer && p.peer == s.local);
+        if pair.is_none() && s.state == 1 && STRICT.load(Ordering::Relaxed) {
+            quiet = false;
+        }
+        if let Some(p) = pair {
             match s.sent {
                 Some(sent) => {
                     // a FIN takes one sequence number and is counted by the receiver
@@ -194,6 +202,12 @@ pub fn snapshot() -> Snap {
         }
     }
     Snap { quiet, counter, socks: socks.len() }
+}
+
+/// TCP state (1 = ESTABLISHED, 8 = CLOSE_WAIT, 7 = CLOSE, ...) of the socket of this process whose
+/// local / peer ports are these; None when there is no such socket (any more).
+pub fn sock_state(local_port: u16, peer_port: u16) -> Option<u8> {
+    all_socks().into_iter().find(|s| s.local.1 == local_port && s.peer.1 == peer_port).map(|s| s.state)
 }
 
 /// One "runtime idle" round: on the paused-clock current-thread runtime this returns only after
